@@ -31,7 +31,7 @@ for name in sorted(os.listdir(os.path.join(V, "refactors"))):
                 fired[c["property_id"]] = {"rc": r.returncode, "fails": [l for l in (r.stdout + r.stderr).splitlines() if l.startswith(("FAIL", "ANALYSIS", "Traceback", "  File", "AssertionError", "KeyError", "TypeError", "AttributeError", "IndexError"))][-8:]}
         shutil.rmtree(env["VERIF_OUT"], ignore_errors=True)
     finally:
-        sh("git -C /repo checkout -- .")
+        sh("git -C /repo checkout -- . && git -C /repo clean -fdq -- src include")
     if not props:
         if fired and "alarms_at_first" not in meta: meta["alarms_at_first"] = meta.get("alarms", fired)
         meta["alarms"] = fired; meta["silent"] = not fired
